@@ -66,7 +66,7 @@ def gen_project(rng):
     npxd = rng.choice([0, 1, 2, 3, 3, 4, 5])
     has_pxi = rng.random() < 0.4
     pxds = ["d%d" % k for k in range(npxd)]
-    if npxd >= 3 and rng.random() < 0.4:
+    if npxd >= 3 and rng.random() < 0.5:
         # shaped graph: a cimport cycle with a tail chain hanging off it, modules entering at different cycle nodes
         # (uniform random edges rarely produce 'cycle + chain of length >= 2 behind it')
         ncyc = rng.randint(2, min(3, npxd - 1))
@@ -214,6 +214,15 @@ def gen_history(rng, files, cfg):
             steps.append({"op": "invoke", "invs": [inv(co)]})
         else:
             steps.append({"op": "restart", "co": co})
+    # deep-dependency scenario: build everything, edit the .pxd that sits deepest behind the others, build everything again
+    # from a fresh checkout (only the cache can supply - or wrongly supply - the C files)
+    if api == "cythonize" and len(mods) >= 2 and len(others) >= 3 and rng.random() < 0.4:
+        deep = sorted(f for f in others if f.endswith(".pxd"))[-1]
+        vcounter[0] += 1
+        k = rng.randrange(1, len(steps) + 1)
+        first = {"co": 0, "api": api, "modules": list(mods), "opts": {}, "fresh_checkout": True}
+        second = {"co": 0, "api": api, "modules": rng.sample(mods, len(mods)), "opts": {}, "fresh_checkout": True}
+        steps[k:k] = [{"op": "invoke", "invs": [first]}, {"op": "edit", "co": "all", "file": deep, "v": vcounter[0]}, {"op": "invoke", "invs": [second]}]
     # fault plan: (invocation ordinal, seam ordinal within it, kind)
     faults = []
     if rng.random() < cfg["fault_run_rate"]:
